@@ -176,6 +176,10 @@ void run_case(verif::Src& s, verif::Stats& st, const bool literal)
         }
         // recipients
         unsigned nr = s.range<unsigned>(1, 6);
+        // "near-coin" requests: one recipient asking for slightly less than one spendable coin, so that a changeless (BnB / exact knapsack) selection
+        // or a change output around the viable minimum results
+        const bool near_coin = s.chance(70) && !L.spendable.empty();
+        if (near_coin) { nr = 1; st.cls("near-coin-request"); }
         std::vector<wallet::CRecipient> rcp;
         std::vector<CScript> rcp_spk;
         const bool all_standard = true;
@@ -209,6 +213,7 @@ void run_case(verif::Src& s, verif::Stats& st, const bool literal)
                 break;
             }
             }
+            if (near_coin) { auto it = L.spendable.begin(); std::advance(it, s.index(L.spendable.size())); amount = it->second - s.range<int>(0, 1500); }
             if (amount < 0) amount = 1000;
             bool sffo = s.chance(70);
             rcp.push_back({dest, amount, sffo});
